@@ -51,8 +51,34 @@ def rp66v1(rng, scale=1, layout=None, convertible=False, name_pool=None):
     def regen(rng2):
         return rp66v1(rng2, scale=10, layout=lay, convertible=convertible)
 
+    corruptor = None
+    if model is not None:
+        # model-aware damage that keeps the file convertible: one letter of a PARAMETER / ORIGIN text value changed (a "twin" of the
+        # valid file: same size, same record positions, different content)
+        texts = []
+        for lf in model.logical_files:
+            for _idx, t in lf.tables:
+                if t.set_type in (b'PARAMETER', b'ORIGIN'):
+                    for o in t.objects:
+                        for c in o.cells:
+                            if c is not None and c.value_bytes and len(c.value_bytes) >= 5:
+                                texts.append((t.set_type, bytes(c.value_bytes[1:])))
+        texts = [(st, t) for st, t in texts if t.replace(b' ', b'').isalnum()]
+
+        def corruptor(rng2, _data=data, _texts=texts):
+            rng2.shuffle(_texts)
+            # PARAMETER values first (three times out of four): the defining origin then stays identical to the original's
+            order = sorted(_texts, key=lambda x: x[0] != b'PARAMETER') if rng2.random() < 0.75 else _texts
+            for _st, t in order:
+                at = _data.find(t)
+                if at >= 0:
+                    k = at + rng2.randrange(len(t))
+                    if chr(_data[k]).isalpha():
+                        return 'twin-text-letter', _data[:k] + bytes([_data[k] ^ 0x01]) + _data[k + 1:]
+            from . import corrupt as _c
+            return 'bitflips', _c.bitflips(rng2, _data, 1)
     v = Valid(data, 'RP66V1', {'sul': phys.sul.as_bytes()[:20].decode('ascii'), 'vr_cap': lay['vr_cap'], 'records': len(lrs), 'content': desc},
-              nontrivial=phys.is_nontrivial(), classes=phys.classes()[:4], boundaries=bounds, regen=regen)
+              nontrivial=phys.is_nontrivial(), classes=phys.classes()[:4], boundaries=bounds, regen=regen, corruptor=corruptor)
     v.expect_las = sum(len(lf.frame_types) for lf in model.logical_files) if model is not None else None
     v.model = model
     return v
